@@ -43,10 +43,19 @@ def _main_check(ctx: Ctx) -> None:
             names += [x.id for x in ast.walk(t_) if isinstance(x, ast.Name) and x.id not in ("int", "round", "float", "max", "min", "abs")] if t_ is not None else []
     if names:
         buf = max(set(names), key=names.count)
+    # a local that holds the message's time: `t = msg.time` / `t = getattr(msg, "time", None)`
+    time_locals = {a.targets[0].id for a in ast.walk(loop) if isinstance(a, ast.Assign) and len(a.targets) == 1 and isinstance(a.targets[0], ast.Name)
+                   and (src(a.value) == f"{m}.time" or (isinstance(a.value, ast.Call) and src(a.value.func) == "getattr" and len(a.value.args) == 3
+                                                       and src(a.value.args[0]) == m and isinstance(a.value.args[1], ast.Constant) and a.value.args[1].value == "time"
+                                                       and isinstance(a.value.args[2], ast.Constant) and a.value.args[2].value is None))
+                   and sum(1 for x in ast.walk(loop) if isinstance(x, ast.Name) and x.id == a.targets[0].id and isinstance(x.ctx, ast.Store)) == 1}
+
+    def _is_msg_time(e):
+        return (isinstance(e, ast.Attribute) and e.attr == "time" and isinstance(e.value, ast.Name) and e.value.id == m) or (isinstance(e, ast.Name) and e.id in time_locals)
     for n in loop.body:
         for x in ast.walk(n):
-            if isinstance(x, ast.AugAssign) and isinstance(x.op, ast.Add) and isinstance(x.target, ast.Name) and isinstance(x.value, ast.Attribute) \
-                    and x.value.attr == "time" and isinstance(x.value.value, ast.Name) and x.value.value.id == m and (buf is None or x.target.id == buf):
+            if isinstance(x, ast.AugAssign) and isinstance(x.op, ast.Add) and isinstance(x.target, ast.Name) and _is_msg_time(x.value) \
+                    and (buf is None or x.target.id == buf):
                 buf = x.target.id
                 aug = x
     if buf is None:
@@ -72,7 +81,7 @@ def _main_check(ctx: Ctx) -> None:
         for leaf, neg in leaves:
             has_time = isinstance(leaf, ast.Call) and isinstance(leaf.func, ast.Name) and leaf.func.id == "hasattr" and not neg
             not_none = isinstance(leaf, ast.Compare) and isinstance(leaf.comparators[0], ast.Constant) and leaf.comparators[0].value is None \
-                and src(leaf.left) == f"{m}.time" and (isinstance(leaf.ops[0], ast.IsNot) != neg)
+                and _is_msg_time(leaf.left) and (isinstance(leaf.ops[0], ast.IsNot) != neg)
             okl = okl and (has_time or not_none)
         ok = okl and not any(isinstance(x, ast.BoolOp) and isinstance(x.op, ast.Or) for x in ast.walk(g.test))
         ctx.check(ok, "ACC2", f"{fi.qualname}: accumulation skipped only for messages without a time", function=fi.qualname,
@@ -102,8 +111,16 @@ def _main_check(ctx: Ctx) -> None:
         ctx.check(ok, "ACC2", f"{fi.qualname}: {T} is written with time=int({buf})", function=fi.qualname,
                   construct=f"{T}: emitted delta time is not the buffer", message=short(t), file=fi.file, node=call)
         # reset after emission in the same block
-        blk = _block_of(_stmt_of(call))
-        i = blk.index(_stmt_of(call))
+        emit = _stmt_of(call)
+        if isinstance(emit, ast.Assign) and len(emit.targets) == 1 and isinstance(emit.targets[0], ast.Name) and emit.value is call:
+            # built into a local first: the emission is where that local is appended
+            held = emit.targets[0].id
+            apps = [x for x in ast.walk(loop) if isinstance(x, ast.Expr) and isinstance(x.value, ast.Call) and call_method(x.value)[1] == "append"
+                    and x.value.args and isinstance(x.value.args[0], ast.Name) and x.value.args[0].id == held]
+            if len(apps) == 1:
+                emit = apps[0]
+        blk = _block_of(emit)
+        i = blk.index(emit)
         later = [s for s in blk[i + 1:] if isinstance(s, ast.Assign) and any(isinstance(x, ast.Name) and x.id == buf for x in s.targets)
                  and isinstance(s.value, ast.Constant) and s.value.value == 0]
         ctx.check(bool(later), "ACC2", f"{fi.qualname}: {T}: buffer reset after the emission", function=fi.qualname,
@@ -148,6 +165,7 @@ def _main_check(ctx: Ctx) -> None:
     if on:
         v = on[1].get("velocity")
         ok = isinstance(v, ast.IfExp) and "is not None" in src(v.test) and src(v.body).endswith(".velocity")
+        ok = ok or (isinstance(v, ast.IfExp) and "is None" in src(v.test) and "is not None" not in src(v.test) and src(v.orelse).endswith(".velocity"))
         ok = ok or (isinstance(v, ast.Attribute) and v.attr == "velocity")
         ctx.check(ok, "KINDS", "writer: velocity replaced by a default only when it is None", function=fi.qualname,
                   construct="note-on velocity overridden for non-None values", message=short(v), file=fi.file, node=on[2])
@@ -169,7 +187,10 @@ def _main_check(ctx: Ctx) -> None:
     sv = p.func("MidiFile.save")
     ctx.analysed(sv)
     res = [s for s in walk_local(sv.node) if isinstance(s, ast.Assign) and any(isinstance(x, ast.Attribute) and x.attr == "ticks_per_beat" for x in s.targets)]
-    ctx.check(len(res) == 1 and isinstance(res[0].value, ast.Name) and res[0].value.id == "PPQN", "RES", "MidiFile.save sets ticks_per_beat = PPQN",
+    # ... or hands it to mido's constructor
+    ctor_res = [kwarg(c, "ticks_per_beat") for c in walk_local(sv.node) if isinstance(c, ast.Call) and src(c.func) == "mido.MidiFile" and kwarg(c, "ticks_per_beat") is not None]
+    ctx.check((len(res) == 1 and not ctor_res and isinstance(res[0].value, ast.Name) and res[0].value.id == "PPQN")
+              or (not res and len(ctor_res) == 1 and isinstance(ctor_res[0], ast.Name) and ctor_res[0].id == "PPQN"), "RES", "MidiFile.save sets ticks_per_beat = PPQN",
               function=sv.qualname, construct="file resolution not set from the library resolution", message=f"{[short(s) for s in res]}",
               file=sv.file, node=sv.node)
     # --- WRITE: the file is actually written, to the path that was given, on every call
@@ -194,6 +215,15 @@ def _main_check(ctx: Ctx) -> None:
         ctx.analysed(f2)
         lp = next((n for n in walk_local(f2.node) if isinstance(n, ast.For)), None)
         ok = lp is not None
+        whole = [c for c in walk_local(f2.node) if isinstance(c, ast.ListComp) and len(c.generators) == 1 and not c.generators[0].ifs
+                 and isinstance(c.generators[0].target, ast.Name) and isinstance(c.elt, ast.Call) and call_method(c.elt)[1] == what
+                 and (src(call_method(c.elt)[0]) == c.generators[0].target.id or [src(a) for a in c.elt.args] == [c.generators[0].target.id])
+                 and (itname is None or attr_chain(c.generators[0].iter) == itname)]
+        if lp is None and len(whole) == 1 and not any(isinstance(c, ast.Call) and call_method(c)[1] == what and all(c is not x for x in ast.walk(whole[0]))
+                                                        for c in walk_local(f2.node)):
+            # the whole list converted in one comprehension -- every element, in order, once -- and handed on as it is
+            ctx.ok("ORDER", f"{q}: converts every element, in order, exactly once (`{short(whole[0], 70)}`)")
+            continue
         if ok:
             tc = TypeCase(p, f2, set(), None)
             exits = tc.run_body(lp.body)
